@@ -194,6 +194,11 @@ func (ms *MessageStreamer) Go(ctx context.Context, conn StreamConnection) error 
 		}
 	})
 
+	// the refresher below has to hear of every ack made outside the stream for
+	// a message this stream has sent, so it must be listening before the sender
+	// can send anything (a goroutine registering for itself may start late)
+	refreshNotify := PublishAwaiter(*ms.SubscriptionID)
+
 	// message retriever / sender
 	eg.Go(func() error {
 		pubNotify := PublishAwaiter(*ms.SubscriptionID)
@@ -309,7 +314,7 @@ func (ms *MessageStreamer) Go(ctx context.Context, conn StreamConnection) error 
 	// refresh pending map from DB when things happen
 	eg.Go(func() error {
 		ids := []uuid.UUID{}
-		pubNotify := PublishAwaiter(*ms.SubscriptionID)
+		pubNotify := refreshNotify
 		for {
 			select {
 			case <-ctx.Done():
